@@ -1,12 +1,56 @@
 import FV.Props.C03
-/-! # C15 — see `Props/C03.lean` for the shared emplacement contract (first instalment). -/
+/-! # C15 — emplacement into any buffer either succeeds correctly or reports the right error
+
+`emplace` is `new_in_place` / `default_in_place` / `FlatWrap::new_in_place`: the alignment and `MIN_SIZE` gate followed
+by `emplace_unchecked`. The buffer `s` is arbitrary: any length from 0, any address. -/
 namespace FV.Props
 open FV
-theorem C15_vec_from_iterator_partial (et : Ty) (hL : Law et.dict) (sz : Nat) (hsz : et.dict.sized = some sz)
-    (l : LenTy) (hl : l.Law) (xs : List Bytes) (hxs : ∀ x ∈ xs, ValidImage et.dict x) (s : Slice)
-    (hal : s.addr % max l.align et.dict.align = 0) (hlen : max l.size et.dict.align ≤ s.len) :
-    ∃ o, emplaceU (.vec et l) (.vecIter xs) s = .ok o ∧ o.bytes.length = s.len ∧
-      (vecD et.dict l).validateU ⟨s.addr, o.bytes⟩ = .ok () ∧
-      (∀ e, o.res = .error e → e.kind = .insufficientSize ∨ e.kind = .badAlign) :=
-  C03_vec_from_iterator_partial et hL sz hsz l hl xs hxs s hal hlen
+
+/-- **C15 for every type, every well-typed initialiser and every buffer.** `new_in_place` never faults (no panic, no
+out-of-bounds or misaligned access) and always keeps the buffer length; a misaligned buffer is refused with
+`BadAlign` and left untouched; an aligned buffer shorter than `MIN_SIZE` is refused with `InsufficientSize` and left
+untouched; any other failure is `InsufficientSize`/`BadAlign` too; and `Ok` means the bytes validate (C03).
+Named `_partial` because one clause of C15 is proved only for `FlatVec` (`C15_vec_accepts_iff_fits`): that a buffer
+which *can* hold the content is accepted. -/
+theorem C15_emplace_total_partial (t : Ty) (h : t.WF) (i : Init) (hw : InitWT t i) (s : Slice) :
+    ∃ o, emplace t i s = .ok o ∧ o.bytes.length = s.len ∧
+      (s.addr % t.dict.align ≠ 0 → o = ⟨s.bytes, .error ⟨.badAlign, 0⟩⟩) ∧
+      (s.addr % t.dict.align = 0 → s.len < t.dict.minSize → o = ⟨s.bytes, .error ⟨.insufficientSize, 0⟩⟩) ∧
+      (∀ e, o.res = .error e → e.kind = .insufficientSize ∨ e.kind = .badAlign) ∧
+      (o.res = .ok () → t.dict.validate ⟨s.addr, o.bytes⟩ = .ok ()) := by
+  by_cases hal : s.addr % t.dict.align = 0
+  · by_cases hlen : s.len < t.dict.minSize
+    · have hc : checkAlignMin t.dict.align t.dict.minSize s = .err ⟨.insufficientSize, 0⟩ := by
+        unfold checkAlignMin; rw [if_neg (by simpa using hal), if_pos hlen]
+      refine ⟨⟨s.bytes, .error ⟨.insufficientSize, 0⟩⟩, by simp only [emplace, hc], rfl, fun h => absurd hal h,
+        fun _ _ => rfl, ?_, fun h => by cases h⟩
+      intro e he; simp only [Except.error.injEq] at he; rw [← he]; exact Or.inl rfl
+    · have hc : checkAlignMin t.dict.align t.dict.minSize s = .ok () := checkAlignMin_ok.2 ⟨hal, by omega⟩
+      obtain ⟨o, ho, hok⟩ := emplaceU_ok i t h hw s hal (by omega)
+      refine ⟨o, by simp only [emplace, hc, ho], hok.len, fun h => absurd hal h, fun _ h => absurd h hlen, hok.kinds, fun hres => ?_⟩
+      exact validate_ok_iff.2 ⟨hal, by simp only [Slice.len, hok.len]; simp only [Slice.len] at hlen; omega, hok.valid hres⟩
+  · have hc : checkAlignMin t.dict.align t.dict.minSize s = .err ⟨.badAlign, 0⟩ := by
+      unfold checkAlignMin; rw [if_pos hal]
+    refine ⟨⟨s.bytes, .error ⟨.badAlign, 0⟩⟩, by simp only [emplace, hc], rfl, fun _ => rfl, fun h => absurd h hal, ?_,
+      fun h => by cases h⟩
+    intro e he; simp only [Except.error.injEq] at he; rw [← he]; exact Or.inr rfl
+
+/-- **Acceptance is exact for `FlatVec`.** `flat_vec![…]` / `FromArray` into an aligned buffer holding at least the header
+succeeds **iff** the number of items is at most the capacity of that buffer (`min(slots, L::MAX)`): the boundary buffer
+length is accepted, one element slot less is refused. -/
+theorem C15_vec_accepts_iff_fits (et : Ty) (hL : Law et.dict) (sz : Nat) (hsz : et.dict.sized = some sz) (l : LenTy)
+    (hl : l.Law) (xs : List Bytes) (hxs : ∀ x ∈ xs, ValidImage et.dict x) (s : Slice)
+    (hal : s.addr % (Ty.vec et l).dict.align = 0) (hlen : (Ty.vec et l).dict.minSize ≤ s.len) :
+    ∃ o, emplaceU (.vec et l) (.vecArr xs) s = .ok o ∧
+      (o.res = .ok () ↔ xs.length ≤ min (if sz = 0 then usizeMax else
+        floorMul (s.len - max l.size et.dict.align) (max l.align et.dict.align) / sz) l.max) := by
+  obtain ⟨o, h1, _, h3⟩ := emplace_vecArr_iff et hL sz hsz l hl xs hxs s hal hlen
+  exact ⟨o, h1, h3⟩
+
+/-- non-vacuity at the boundary: three `u16` items need 8 bytes; 8 are accepted, 7 refused -/
+example : (emplace (.vec u16 L16) (.vecArr [[1,0],[2,0],[3,0]]) ⟨0, [9,9,9,9,9,9,9,9]⟩).bind (fun o => .ok o.res) = .ok (.ok ()) := by decide +kernel
+example : (emplace (.vec u16 L16) (.vecArr [[1,0],[2,0],[3,0]]) ⟨0, [9,9,9,9,9,9,9]⟩).bind (fun o => .ok o.res) =
+    .ok (.error ⟨.insufficientSize, 0⟩) := by decide +kernel
+/-- a misaligned buffer -/
+example : emplace (.vec u16 L16) .vecEmpty ⟨1, [9,9,9,9]⟩ = .ok ⟨[9,9,9,9], .error ⟨.badAlign, 0⟩⟩ := by decide +kernel
 end FV.Props
